@@ -58,7 +58,13 @@ def inlinable(facts, t, stack, want=None):
         return None
     ck = t.get("res")
     raw = facts.data["fns"].get(ck)
-    if raw is None or raw.get("kind") not in ("Fn", "AssocFn"):
+    if raw is None:
+        return None
+    if t.get("synthetic_closure_call"):
+        if raw.get("kind") != "Closure" or ck in stack or int(raw["argc"]) != len(t.get("args", [])):
+            return None
+        return ck
+    if raw.get("kind") not in ("Fn", "AssocFn"):
         return None
     if ck in stack:
         return None
@@ -67,6 +73,227 @@ def inlinable(facts, t, stack, want=None):
     if want is not None and not want(ck, raw):
         return None
     return ck
+
+
+# ---------------------------------------------------------------------------------------------------------------------
+# std combinators as control flow.  `o.map(f)`, `r.map_err(f)`, `o.filter(p)`, `x?` ... are rewritten into the `match`
+# they abbreviate (a discriminant switch, the closure body spliced into the arm that calls it, a literal result per arm),
+# so that a rule sees one normal form whichever spelling the source uses.
+
+OPT, RES, POLL, CF = "std::option::Option", "std::result::Result", "std::task::Poll", "std::ops::ControlFlow"
+VARIANTS = {OPT: ["None", "Some"], RES: ["Ok", "Err"], POLL: ["Ready", "Pending"], CF: ["Continue", "Break"]}
+
+# result expressions: ("payload",) | ("arg", i) | ("call", i, "payload"|"refpayload"|None) | ("wrap", adt, variant, expr|None)
+#                     | ("bool", b) | ("filter", i)
+COMBINATORS = [
+    (r"^std::option::Option::<.*>::map$", OPT, {"Some": ("wrap", OPT, "Some", ("call", 1, "payload")), "None": ("wrap", OPT, "None", None)}),
+    (r"^std::option::Option::<.*>::and_then$", OPT, {"Some": ("call", 1, "payload"), "None": ("wrap", OPT, "None", None)}),
+    (r"^std::option::Option::<.*>::filter$", OPT, {"Some": ("filter", 1), "None": ("wrap", OPT, "None", None)}),
+    (r"^std::option::Option::<.*>::is_some_and$", OPT, {"Some": ("call", 1, "payload"), "None": ("bool", False)}),
+    (r"^std::option::Option::<.*>::is_none_or$", OPT, {"Some": ("call", 1, "payload"), "None": ("bool", True)}),
+    (r"^std::option::Option::<.*>::map_or$", OPT, {"Some": ("call", 2, "payload"), "None": ("arg", 1)}),
+    (r"^std::option::Option::<.*>::map_or_else$", OPT, {"Some": ("call", 2, "payload"), "None": ("call", 1, None)}),
+    (r"^std::option::Option::<.*>::unwrap_or_else$", OPT, {"Some": ("payload",), "None": ("call", 1, None)}),
+    (r"^std::option::Option::<.*>::unwrap_or$", OPT, {"Some": ("payload",), "None": ("arg", 1)}),
+    (r"^std::option::Option::<.*>::unwrap_or_default$", OPT, {"Some": ("payload",), "None": ("defcall",)}),
+    (r"^std::result::Result::<.*>::unwrap_or_default$", RES, {"Ok": ("payload",), "Err": ("defcall",)}),
+    (r"^std::option::Option::<.*>::ok_or_else$", OPT, {"Some": ("wrap", RES, "Ok", ("payload",)), "None": ("wrap", RES, "Err", ("call", 1, None))}),
+    (r"^std::option::Option::<.*>::ok_or$", OPT, {"Some": ("wrap", RES, "Ok", ("payload",)), "None": ("wrap", RES, "Err", ("arg", 1))}),
+    (r"^std::option::Option::<.*>::or_else$", OPT, {"Some": ("wrap", OPT, "Some", ("payload",)), "None": ("call", 1, None)}),
+    (r"^std::result::Result::<.*>::map$", RES, {"Ok": ("wrap", RES, "Ok", ("call", 1, "payload")), "Err": ("wrap", RES, "Err", ("payload",))}),
+    (r"^std::result::Result::<.*>::map_err$", RES, {"Ok": ("wrap", RES, "Ok", ("payload",)), "Err": ("wrap", RES, "Err", ("call", 1, "payload"))}),
+    (r"^std::result::Result::<.*>::and_then$", RES, {"Ok": ("call", 1, "payload"), "Err": ("wrap", RES, "Err", ("payload",))}),
+    (r"^std::result::Result::<.*>::or_else$", RES, {"Ok": ("wrap", RES, "Ok", ("payload",)), "Err": ("call", 1, "payload")}),
+    (r"^std::result::Result::<.*>::unwrap_or_else$", RES, {"Ok": ("payload",), "Err": ("call", 1, "payload")}),
+    (r"^std::result::Result::<.*>::unwrap_or$", RES, {"Ok": ("payload",), "Err": ("arg", 1)}),
+    (r"^std::result::Result::<.*>::ok$", RES, {"Ok": ("wrap", OPT, "Some", ("payload",)), "Err": ("wrap", OPT, "None", None)}),
+    (r"^std::result::Result::<.*>::err$", RES, {"Ok": ("wrap", OPT, "None", None), "Err": ("wrap", OPT, "Some", ("payload",))}),
+    (r"^std::task::Poll::<.*>::map$", POLL, {"Ready": ("wrap", POLL, "Ready", ("call", 1, "payload")), "Pending": ("wrap", POLL, "Pending", None)}),
+    (r"^<std::option::Option<.*> as std::ops::Try>::branch$", OPT, {"Some": ("wrap", CF, "Continue", ("payload",)), "None": ("wrap", CF, "Break", ("wrap", OPT, "None", None))}),
+    (r"^<std::result::Result<.*> as std::ops::Try>::branch$", RES, {"Ok": ("wrap", CF, "Continue", ("payload",)), "Err": ("wrap", CF, "Break", ("wrap", RES, "Err", ("payload",)))}),
+    (r"^<std::option::Option<.*> as std::ops::FromResidual<.*>>::from_residual$", None, ("wrap", OPT, "None", None)),
+]
+
+
+def _find_combinator(t):
+    import re
+    if t.get("k") != "call" or t.get("resl") or is_noise(t):
+        return None
+    name = t.get("resa") or t.get("res") or t.get("decla") or ""
+    gen = t.get("res") or t.get("decl") or ""
+    for pat, adt, arms in COMBINATORS:
+        if re.search(pat, gen) or re.search(pat, name):
+            return (adt, arms)
+    return None
+
+
+def _closure_key_of(d, blocks, operand, facts):
+    """Body key of the closure / function item an operand denotes, looking through moves inside the function."""
+    k = operand.get("k") if isinstance(operand, dict) else None
+    if k:
+        for f in ("closure", "fn", "fna"):
+            if k.get(f) in facts.data["fns"]:
+                return k[f], "item"
+        ty = k.get("ty") or ""
+        return None, None
+    pl = operand.get("m") or operand.get("c")
+    seen = 0
+    while pl is not None and not pl["p"] and seen < 8:
+        seen += 1
+        defs = []
+        for blk in blocks:
+            for st in blk["s"]:
+                if st.get("k") == "assign" and st["p"]["l"] == pl["l"] and not st["p"]["p"]:
+                    defs.append(st)
+        if len(defs) != 1:
+            return None, None
+        r = defs[0]["r"]
+        if r["k"] == "agg":
+            for kk in ("closure",):
+                if kk in r and r[kk] in facts.data["fns"]:
+                    return r[kk], "closure"
+            return None, None
+        if r["k"] == "use":
+            o = r["o"]
+            if "k" in o:
+                return _closure_key_of(d, blocks, o, facts)
+            pl = o.get("m") or o.get("c")
+            continue
+        return None, None
+    return None, None
+
+
+def _expand_combinator(facts, d, blocks, b, spec, level, stack_of):
+    """Rewrite block b's combinator call into a switch with one arm per variant.  Returns True when rewritten."""
+    adt, arms = spec
+    blk = blocks[b]
+    t = blk["t"]
+    target = t.get("t")
+    if target is None:
+        return False
+    args = t["args"]
+    dest = t["dest"]
+    line = t.get("l")
+    lv = level[b]
+    stk = stack_of[b]
+
+    def new_local(ty="?"):
+        d["locals"] = d["locals"] + [ty]
+        if "user" in d:
+            d["user"] = d["user"] + ["false"]
+        return len(d["locals"]) - 1
+
+    def new_block(stmts, term):
+        blocks.append({"s": stmts, "t": term, "cleanup": False, "file": blk.get("file"), "syn": True})
+        nid = len(blocks) - 1
+        level[nid] = lv
+        stack_of[nid] = stk
+        return nid
+
+    # resolve closures used by the arms first: if one cannot be resolved keep the call as it is
+    need = set()
+
+    def closures_in(e):
+        if e is None:
+            return
+        if e[0] in ("call", "filter"):
+            need.add(e[1])
+        if e[0] == "wrap":
+            closures_in(e[3])
+    if adt is None:
+        closures_in(arms)
+    else:
+        for e in arms.values():
+            closures_in(e)
+    ckeys = {}
+    for i in need:
+        if i >= len(args):
+            return False
+        ck, kind = _closure_key_of(d, blocks, args[i], facts)
+        if ck is None:
+            return False
+        raw = facts.data["fns"][ck]
+        ckeys[i] = (ck, kind, raw)
+
+    ret = new_local()
+    glue = new_block([{"k": "assign", "p": copy.deepcopy(dest), "r": {"k": "use", "o": {"m": {"l": ret, "p": []}}}, "l": line, "syn": "glue"}],
+                     {"k": "goto", "t": target, "l": line})
+    lo = len(blocks)
+
+    def emit(e, payload, cont_place, nxt):
+        """Blocks computing expression e into cont_place, then going to nxt.  Returns the entry block id."""
+        if e is None:
+            return nxt
+        kind = e[0]
+        if kind == "payload":
+            return new_block([{"k": "assign", "p": cont_place, "r": {"k": "use", "o": {"m": copy.deepcopy(payload)}}, "l": line}], {"k": "goto", "t": nxt, "l": line})
+        if kind == "arg":
+            return new_block([{"k": "assign", "p": cont_place, "r": {"k": "use", "o": copy.deepcopy(args[e[1]])}, "l": line}], {"k": "goto", "t": nxt, "l": line})
+        if kind == "bool":
+            return new_block([{"k": "assign", "p": cont_place, "r": {"k": "use", "o": {"k": {"ty": "bool", "v": "true" if e[1] else "false"}}}, "l": line}], {"k": "goto", "t": nxt, "l": line})
+        if kind == "defcall":
+            term = {"k": "call", "decl": "std::default::Default::default", "decla": "std::default::Default::default", "res": None, "resl": False, "args": [], "argtys": [],
+                    "dest": cont_place, "t": nxt, "u": None, "l": line, "fl": line}
+            return new_block([], term)
+        if kind == "wrap":
+            _, wadt, wv, inner = e
+            if inner is None:
+                st = {"k": "assign", "p": cont_place, "r": {"k": "agg", "adt": wadt, "v": wv, "vi": VARIANTS[wadt].index(wv), "fields": [], "ops": []}, "l": line}
+                return new_block([st], {"k": "goto", "t": nxt, "l": line})
+            tmp = new_local()
+            st = {"k": "assign", "p": cont_place, "r": {"k": "agg", "adt": wadt, "v": wv, "vi": VARIANTS[wadt].index(wv), "fields": ["0"], "ops": [{"m": {"l": tmp, "p": []}}]}, "l": line}
+            wb = new_block([st], {"k": "goto", "t": nxt, "l": line})
+            return emit(inner, payload, {"l": tmp, "p": []}, wb)
+        if kind == "call":
+            _, ci, how = e
+            ck, ckind, raw = ckeys[ci]
+            cargs = []
+            pre = []
+            if ckind == "closure":
+                env_ty = raw["locals"][1] if len(raw["locals"]) > 1 else ""
+                cl = args[ci].get("m") or args[ci].get("c")
+                if env_ty.startswith("&"):
+                    envl = new_local(env_ty)
+                    pre.append({"k": "assign", "p": {"l": envl, "p": []}, "r": {"k": "ref", "bk": "mut" if env_ty.startswith("&mut") else "shared", "p": copy.deepcopy(cl)}, "l": line})
+                    cargs.append({"m": {"l": envl, "p": []}})
+                else:
+                    cargs.append(copy.deepcopy(args[ci]))
+            if how == "payload":
+                cargs.append({"m": copy.deepcopy(payload)})
+            elif how == "refpayload":
+                rl = new_local()
+                pre.append({"k": "assign", "p": {"l": rl, "p": []}, "r": {"k": "ref", "bk": "shared", "p": copy.deepcopy(payload)}, "l": line})
+                cargs.append({"m": {"l": rl, "p": []}})
+            term = {"k": "call", "res": ck, "resa": ck, "decl": ck, "resl": True, "resk": "item", "args": cargs, "argtys": [], "dest": cont_place, "t": nxt, "u": None, "l": line, "fl": line}
+            if ckind == "closure":
+                term["synthetic_closure_call"] = True
+            return new_block(pre, term)
+        if kind == "filter":
+            ci = e[1]
+            flag = new_local("bool")
+            keep = emit(("wrap", OPT, "Some", ("payload",)), payload, cont_place, nxt)
+            drop_ = emit(("wrap", OPT, "None", None), payload, cont_place, nxt)
+            sw = new_block([], {"k": "switch", "o": {"m": {"l": flag, "p": []}}, "oty": "bool", "ts": [["0", drop_]], "else": keep, "l": line})
+            return emit(("call", ci, "refpayload"), payload, {"l": flag, "p": []}, sw)
+        raise ValueError(kind)
+
+    if adt is None:
+        entry = emit(arms, None, {"l": ret, "p": []}, glue)
+        blk["t"] = {"k": "goto", "t": entry, "l": line, "syn": "comb"}
+    else:
+        recv = new_local()
+        dl_ = new_local("isize")
+        blk["s"].append({"k": "assign", "p": {"l": recv, "p": []}, "r": {"k": "use", "o": copy.deepcopy(args[0])}, "l": line, "syn": "recv"})
+        vs = VARIANTS[adt]
+        blk["s"].append({"k": "assign", "p": {"l": dl_, "p": []}, "r": {"k": "discr", "p": {"l": recv, "p": []}, "adt": adt, "vars": [[str(i), v] for i, v in enumerate(vs)]}, "l": line, "syn": "discr"})
+        entries = {}
+        for i, v in enumerate(vs):
+            payload = {"l": recv, "p": [{"d": v, "i": i}, {"f": 0, "n": "0", "t": None}]}
+            entries[v] = emit(arms[v], payload, {"l": ret, "p": []}, glue)
+        blk["t"] = {"k": "switch", "o": {"m": {"l": dl_, "p": []}}, "oty": "isize", "ts": [["0", entries[vs[0]]]], "else": entries[vs[1]], "l": line, "syn": "comb"}
+    hi = len(blocks)
+    _thread_returns(d, blocks, lo, hi, ret, glue, level, stack_of)
+    return True
 
 
 def _normal_succ(blocks, b):
@@ -199,8 +426,9 @@ def _thread_returns(d, blocks, lo, hi, ret_local, glue, level, stack_of):
         blocks[prev]["t"] = {"k": "goto", "t": arm, "l": tt.get("l"), "threaded": True}
 
 
-def inline(facts, fn, depth=2, want=None):
+def inline(facts, fn, depth=2, want=None, expand=False):
     d = copy.deepcopy(fn.d)
+    expanded = []
     blocks = d["blocks"]
     level = {b: 0 for b in range(len(blocks))}
     stack_of = {b: (fn.key,) for b in range(len(blocks))}
@@ -210,7 +438,14 @@ def inline(facts, fn, depth=2, want=None):
         blk = blocks[b]
         t = blk["t"]
         lv = level[b]
-        ck = inlinable(facts, t, stack_of[b], want) if lv < depth and not blk.get("cleanup") else None
+        if expand and not blk.get("cleanup") and t.get("k") == "call":
+            spec = _find_combinator(t)
+            if spec is not None and _expand_combinator(facts, d, blocks, b, spec, level, stack_of):
+                expanded.append(t.get("res") or t.get("decl"))
+                # the block now ends in a switch / goto; synthetic closure calls sit in the new blocks
+                b += 1
+                continue
+        ck = inlinable(facts, t, stack_of[b], want) if (lv < depth or t.get("synthetic_closure_call")) and not blk.get("cleanup") else None
         if ck is None:
             b += 1
             continue
@@ -258,5 +493,6 @@ def inline(facts, fn, depth=2, want=None):
         b += 1
     g = Fn(fn.facts, fn.key, d)
     g.inlined = inlined
+    g.expanded = expanded
     g.origin = fn
     return g
